@@ -5,8 +5,8 @@
                   cmpval = cmp_f (p->hkey, key); if (cmpval < 0) continue; if (cmpval == 0) <hit>; break;
               hash_delete_if walks every chain of every slot and unlinks the nodes arg_f selects;
               h->count is kept incrementally.
-   replay.c : key = (first sizeof(data.mac) MAC bytes, t_expired), t_expired = (time_t)(time0 + ttl)
-              (uint32 sum); replay_cmp_f = memcmp of the MAC bytes, then t_expired; replay_key_f = the
+   replay.c : key = (first sizeof(data.mac) MAC bytes, t_expired), t_expired = (time_t) time0 + ttl
+              (formed in time_t, unbounded here); replay_cmp_f = memcmp of the MAC bytes, then t_expired; replay_key_f = the
               first 4 MAC bytes as an unsigned int; replay_is_expired = (t_expired < now).
    The slot function is a parameter (`slot_of`) of everything below: the theorems hold for every
    collision pattern; `c_slot` is the one the C code uses (key_f % size), used by the extracted oracle.
@@ -126,7 +126,10 @@ Arguments get {K}.
 Notation rkey := (bytes * N)%type.          (* (data.mac, data.t_expired) *)
 Notation rtable := (table rkey).
 
-Definition t_expired_of (time0 ttl : N) : N := (time0 + ttl) mod replay_texp_modulus.
+(* replay_insert / replay_remove: t_expired = (time_t) m->time0 + m->ttl, formed in time_t (no 32-bit wrap);
+   the probe runs replay_insert on time0 = 2^32-1, ttl = 2 to see which of the two it is *)
+Definition t_expired_of (time0 ttl : N) : N :=
+  if replay_texp_wraps32 then (time0 + ttl) mod 4294967296 else time0 + ttl.
 (* replay_insert / replay_remove: memcpy (r->data.mac, c->mac, sizeof (r->data.mac)) *)
 Definition mk_key (mac : bytes) (t_expired : N) : rkey := (firstn replay_mac_len mac, t_expired).
 
